@@ -772,7 +772,8 @@ def _fingerprint_1d(model):
     params = getattr(getattr(model, "levy_model", model), "parameters", None)
     if params is not None:
         try:
-            out["parameters"] = sorted((k, _canon(v)) for k, v in vars(params).items() if isinstance(v, (int, float, np.floating, np.integer)))
+            out["parameters"] = sorted((k, _canon(v)) for k, v in vars(params).items()
+                                       if not k.startswith("_") and isinstance(v, (int, float, np.floating, np.integer)))
         except TypeError:
             pass
     return out
@@ -1015,7 +1016,9 @@ def _oracle_1d(sh, case, model, grid, tag, given=None, given_vectors=None, refin
         return None
     if given is None:
         # the constructors deep copy the model and only read the grid: the caller's objects are as they were
-        _arguments_untouched(sh, "a-chain-constructor", tag, grid, grid_before, _fingerprint_1d(model), model_before)
+        model_now = _fingerprint_1d(model)
+        _arguments_untouched(sh, "a-chain-constructor", tag, grid, grid_before, model_now, model_before)
+        grid_before, model_before = _grid_snapshot(grid), model_now
     p0 = next(iter(procs.values()))
     lam = float(p0.intensity_of_jumps)
     if not (math.isfinite(lam) and lam > 0):
@@ -1449,7 +1452,9 @@ def _oracle_nd(sh, case, ctx, tag, given=None, refine=None, keep=None):
     if not procs:
         return
     if given is None:
-        _arguments_untouched(sh, "a-chain-constructor", tag, grid, grid_before, _fingerprint_nd(model), model_before)
+        model_now = _fingerprint_nd(model)
+        _arguments_untouched(sh, "a-chain-constructor", tag, grid, grid_before, model_now, model_before)
+        grid_before, model_before = _grid_snapshot(grid), model_now
     p0 = next(iter(procs.values()))
     lam = float(p0.intensity_of_jumps)
     if not (math.isfinite(lam) and lam > 0):
@@ -1669,9 +1674,31 @@ def _path_manager(fine_process):
     return MLMCPath(deterministic_path=fine_process.deterministic_path, activate_spot_underlying=False)
 
 
-def _compare_with_fresh(sh, tag, level, reused, fresh):
+def _compare_with_fresh(sh, tag, level, reused, fresh, grid=None):
     """the re-used grid object after `level` refinements against a grid constructed afresh and refined `level` times before
-    its first use: same axes, h and origin index bit for bit; same intensity and per-state rates"""
+    its first use: same axes, h and origin index bit for bit; same intensity and per-state rates. grid: the re-used grid
+    object - when the oracle gave no summary for it (it skips malformed grids: C13's subject when they come out of a
+    constructor) while the fresh grid is fine, the history has spoilt the grid: compared field by field all the same"""
+    if reused is None and fresh is not None and grid is not None:
+        try:
+            snap = _grid_snapshot(grid)
+            reused = {"h": snap["h"]}
+            if "axis" in fresh:
+                reused.update(axis=snap["axes"][0], origin=snap["origin"][0])
+            else:
+                reused.update(axes=snap["axes"], origin=snap["origin"])
+        except Exception as e:  # noqa
+            sh.violation(f"C01:history:grid:not-readable-after-the-history-{type(e).__name__}:{tag}", f"level {level}: {e!r}"[:300], None)
+            return
+        for field in ("axes", "axis", "h", "origin"):
+            if field in reused:
+                sh.count("evaluations")
+                if reused[field] != fresh[field]:
+                    sh.violation(f"C01:history:grid:{field}-differs-from-a-fresh-grid-refined-as-often:{tag}",
+                                 f"after {level} refinement(s) in the history: {field} of the grid differs from the fresh grid's (and the grid is malformed)", None)
+                    return
+        sh.count("history-comparison-skipped")
+        return
     if reused is None or fresh is None:
         sh.count("history-comparison-skipped")
         return
@@ -1731,7 +1758,7 @@ def _history1d(sh, case):
                 fresh_model = _make_model(case["model"])
                 fresh_grid = _make_grid(dict(g0, refine=level), fresh_model, 1)
                 fresh = _light_summary_1d(fresh_model, fresh_grid)
-                _compare_with_fresh(sh, tag, level, reused, fresh)
+                _compare_with_fresh(sh, tag, level, reused, fresh, grid=grid)
             # a deep copy of the used grid is the same grid
             if reused is not None:
                 _compare_summaries(sh, f"C01:history:grid:chain-on-deep-copy-of-the-used-grid-differs:{gk}:{fam}",
@@ -1776,7 +1803,7 @@ def _history1d(sh, case):
             reused = _oracle_1d(sh, case, model, cpl.grid, tag if level else f"{gk}:{fam}", given={meth: cpl.fine_process},
                                 given_vectors=vecs, refine=level, ref_model=ref_model)
             fresh_model = _make_model(case["model"])
-            _compare_with_fresh(sh, tag, level, reused, _light_summary_1d(fresh_model, _make_grid(dict(g0, refine=level), fresh_model, 1)))
+            _compare_with_fresh(sh, tag, level, reused, _light_summary_1d(fresh_model, _make_grid(dict(g0, refine=level), fresh_model, 1)), grid=cpl.grid)
             if reused is None:
                 continue
             for cname, cpf in _copiers()[1:]:
@@ -1812,7 +1839,7 @@ def _history1d(sh, case):
                                 ref_model=ref_model)
             fresh_model = _make_model(case["model"])
             fresh_grid = _make_grid(dict(g0, refine=level), fresh_model, 1)
-            _compare_with_fresh(sh, tag, level, reused, _light_summary_1d(fresh_model, fresh_grid))
+            _compare_with_fresh(sh, tag, level, reused, _light_summary_1d(fresh_model, fresh_grid), grid=cp.grid)
     # the coupling deep copies what it needs: the model the caller handed over is as it was
     sh.count("evaluations")
     diff = _differing_fields(model_before, _fingerprint_1d(model))
@@ -2026,7 +2053,7 @@ def _historynd(sh, case):
             ctx = _CopulaCtx(sh, case, model=model, grid=grid)
             reused = _oracle_nd(sh, case, ctx, tag if level else base, refine=level)
             if level:
-                _compare_with_fresh(sh, tag, level, reused, _light_summary_nd(sh, case, level))
+                _compare_with_fresh(sh, tag, level, reused, _light_summary_nd(sh, case, level), grid=grid)
         sh.count("histories")
         return
     meth = case["method"]
@@ -2054,7 +2081,7 @@ def _historynd(sh, case):
             for level, cpl in enumerate(levels):
                 ctx = _CopulaCtx(sh, case, model=model, grid=cpl.grid)
                 reused = _oracle_nd(sh, case, ctx, tag if level else base, given={meth: cpl.fine_process}, refine=level)
-                _compare_with_fresh(sh, tag, level, reused, _light_summary_nd(sh, case, level))
+                _compare_with_fresh(sh, tag, level, reused, _light_summary_nd(sh, case, level), grid=cpl.grid)
                 if reused is None:
                     continue
                 for cname, cpf in _copiers()[1:]:
@@ -2085,7 +2112,7 @@ def _historynd(sh, case):
                 return
             ctx = _CopulaCtx(sh, case, model=model, grid=cp.grid)
             reused = _oracle_nd(sh, case, ctx, tag, given={meth: cp.fine_process}, refine=level)
-            _compare_with_fresh(sh, tag, level, reused, _light_summary_nd(sh, case, level))
+            _compare_with_fresh(sh, tag, level, reused, _light_summary_nd(sh, case, level), grid=cp.grid)
     sh.count("evaluations")
     diff = _differing_fields(model_before, _fingerprint_nd(model))
     if diff:
@@ -2509,7 +2536,7 @@ def _dill_free_fresh(grid):
     through the base-class constructor (refine() only needs middle(), which the probability-step grid overrides: not used for it)"""
     from rpylib.grid import spatial as S
 
-    if type(grid).middle is not S.CTMCGrid.middle:
+    if any("middle" in vars(k) for k in type(grid).__mro__ if k is not S.CTMCGrid and issubclass(k, S.CTMCGrid)):
         return None
     g = S.CTMCGrid(h=grid.h, origin_coordinate=int(list(grid.origin_coordinate)[0]), axes=[np.array(ax, dtype=float) for ax in grid.axes])
     g.refine()
@@ -2520,6 +2547,10 @@ def _light_nd(sh, case, model, grid):
     from rpylib.distribution.sampling import SamplingMethod
     from rpylib.process.markovchain.markovchainlevycopula import MarkovChainLevyCopula
 
+    if math.prod(len(ax) for ax in grid.axes) > 50_000:
+        # never on the unchanged library (the grids of the forms menus have at most 21 points per axis)
+        sh.count("grid-too-large-for-a-summary")
+        return None
     ctx = _CopulaCtx(sh, case, model=model, grid=grid, ref_model=model)
     if not ctx.ok:
         return None
@@ -2530,6 +2561,9 @@ def _light_nd(sh, case, model, grid):
 
 
 def _proc_summary_nd(sh, case, p):
+    if math.prod(len(ax) for ax in p.grid.axes) > 50_000:
+        sh.count("grid-too-large-for-a-summary")
+        return None
     ctx = _CopulaCtx(sh, case, model=p.model, grid=p.grid, ref_model=p.model)
     out = {"axes": [[x.hex() for x in ax] for ax in ctx.axes], "h": float(p.grid.h).hex(), "origin": list(ctx.orig),
            "intensity": float(p.intensity_of_jumps), "mass": [float(p.model.mass(*ctx.cell(idx))) for idx in ctx.states()]}
